@@ -719,12 +719,8 @@ func (in *Interp) execStmt(fr *frame, o *a.Node) ctl {
 			in.use(rhs, v, "stored")
 			in.store(fr, lhs, v, "assignment")
 			if in.pure == 0 {
-				cls := "assign-" + lhsClass(lhs)
-				if rhs.Mentions(lhs) {
-					cls += "-selfref"
-				}
 				if rhs.Operator() != t.IDOpenParen || !rhs.Effect().Impure() {
-					in.lastChange, in.lastText = cls, text
+					in.lastChange, in.lastText = "store-"+lhsClass(lhs), text
 				}
 			}
 			return ctl{}
@@ -737,11 +733,7 @@ func (in *Interp) execStmt(fr *frame, o *a.Node) ctl {
 		v := in.binop(tmp, op.BinaryForm(), lhs, cur, rhs, r)
 		in.store(fr, lhs, v, "op-assignment")
 		if in.pure == 0 {
-			cls := "opassign-" + lhsClass(lhs)
-			if rhs.Mentions(lhs) {
-				cls += "-selfref"
-			}
-			in.lastChange, in.lastText = cls, text
+			in.lastChange, in.lastText = "store-"+lhsClass(lhs), text
 		}
 		return ctl{}
 
